@@ -212,7 +212,7 @@ class mapper(object):
     def _Mem_read(self, a, l, endian=1):
         "read l bytes from memory address a and return an expression"
         try:
-            res = self.__Mem.read(a, l)
+            res = self.__Mem.read(a, l, endian)
         except MemoryError:  # no zone for location a;
             res = [exp(l * 8)]
         P = []
